@@ -177,6 +177,28 @@ pub fn run(ctx: &Ctx, rep: &mut Report) {
         }
         rep.bound("pow2_neighbours", J::s("(2^n+a, 2^n+b), a,b in {-1,0,1}, n<=15, inside the envelope"));
     }
+    // other shard geometries: short final block, long shards, several MiB through one call
+    for k in 1..=6usize {
+        for r in 1..=6usize {
+            for eng in engines_all() {
+                for data in ["dense:66", "dense:4162"] {
+                    if data == "dense:4162" && (k + r) % 3 != 0 {
+                        continue;
+                    }
+                    cases.push(Kv::new().with("what", "cfg").with("eng", eng).with("k", k).with("r", r).with("data", data).with("seed", seed));
+                }
+            }
+        }
+    }
+    for (k, r) in [(3usize, 2usize), (2, 3), (5, 5)] {
+        for data in ["dense:1048576", "dense:1048642", "dense:2101314"] {
+            if !ctx.thorough() && (k == 5) != (data == "dense:1048642") {
+                continue;
+            }
+            cases.push(Kv::new().with("what", "cfg").with("eng", "default").with("k", k).with("r", r).with("data", data).with("seed", seed));
+        }
+    }
+    rep.bound("geometries", J::s("[1..6]^2 x every engine with 66-byte shards (4162 bytes when (k+r)%3==0); (3,2) (2,3) (5,5) on the default engine with shards of 1 MiB, 1 MiB+66, 2 MiB+4162 (quick: a fixed half) through every layer"));
     let alpha = [(3usize, 3usize), (3, 4), (3, 5), (4, 3), (5, 3), (9, 2), (2, 9), (17, 16), (16, 17)];
     let depth = 3;
     let mut seqs: Vec<Vec<(usize, usize)>> = vec![vec![]];
@@ -232,7 +254,7 @@ pub fn run(ctx: &Ctx, rep: &mut Report) {
                 }
             }
             Err((exp, obs)) => rep.violation(Violation {
-                key: format!("{}-{}-{}", kv.str("what"), kv.str("eng"), if kv.str("what") == "cfg" { format!("k{}r{}", kv.str("k"), kv.str("r")) } else { format!("{}-{}-f{}", kv.str("layer"), kv.str("seq"), kv.opt("failing").unwrap_or("0")) }),
+                key: format!("{}-{}-{}", kv.str("what"), kv.str("eng"), if kv.str("what") == "cfg" { format!("k{}r{}-{}", kv.str("k"), kv.str("r"), kv.str("data").replace(':', "")) } else { format!("{}-{}-f{}", kv.str("layer"), kv.str("seq"), kv.opt("failing").unwrap_or("0")) }),
                 case: kv.dump(),
                 expected: exp,
                 observed: obs,
